@@ -438,7 +438,7 @@ def _smt_answer(out):
     return "unknown"
 
 
-def run_job(crate, harness, skeleton, jobdir, budget):
+def run_job(crate, harness, skeleton, jobdir, budget, want_witness=True):
     """Decide all obligations of one (harness, skeleton) job."""
     r = JobResult(harness, skeleton)
     os.makedirs(jobdir, exist_ok=True)
@@ -508,7 +508,7 @@ def run_job(crate, harness, skeleton, jobdir, budget):
             else:
                 r.status, r.detail = "unknown", "smt timeout/unknown after %.0fs" % ssecs
     # vacuity witness: the end-of-harness cover must be reachable (CaDiCaL)
-    if harness.witness and r.status == "proved" and harness.engine != "e1":
+    if harness.witness and want_witness and r.status == "proved" and harness.engine != "e1":
         ends = [p for p in covers if "vk_end" in p["desc"]]
         if not ends:
             r.witness = None
@@ -531,26 +531,28 @@ def _pdesc(p):
     return "%s [%s @%s:%s]" % (p["desc"], p["name"], os.path.basename(p["file"] or "?"), p["line"])
 
 
-def run_jobs(crate, harnesses, budget, progress=True, order_seed=0):
+def run_jobs(crate, harnesses, budget, progress=True, order_seed=0, witness_every=1):
+    """witness_every: the (separate, e2-only) vacuity-witness run is made for every k-th skeleton job of a harness
+    (always for the first one and for harnesses without skeletons); e1 jobs get their witness for free."""
     jobs = []
     for h in harnesses:
         if h.name not in crate.meta:
             raise BuildError("harness %s missing from Kani metadata" % h.name)
         if h.skeletons is None:
-            jobs.append((h, None))
+            jobs.append((h, None, True))
         else:
-            for s in h.skeletons:
-                jobs.append((h, tuple(s)))
+            for k, s in enumerate(h.skeletons):
+                jobs.append((h, tuple(s), (k + order_seed) % witness_every == 0 or k == 0))
     results = []
     lock = threading.Lock()
     done = [0]
     runroot = os.path.join(crate.dir, "jobs")
     shutil.rmtree(runroot, ignore_errors=True)
 
-    def work(i, h, s):
+    def work(i, h, s, w):
         jd = os.path.join(runroot, "%05d" % i)
         try:
-            r = run_job(crate, h, s, jd, budget)
+            r = run_job(crate, h, s, jd, budget, want_witness=w)
         except Exception as e:  # noqa
             r = JobResult(h, s)
             r.detail = "exception: %r" % (e,)
@@ -561,7 +563,7 @@ def run_jobs(crate, harnesses, budget, progress=True, order_seed=0):
         return r
 
     with cf.ThreadPoolExecutor(max_workers=NCPU) as ex:
-        futs = [ex.submit(work, i, h, s) for i, (h, s) in enumerate(jobs)]
+        futs = [ex.submit(work, i, h, s, w) for i, (h, s, w) in enumerate(jobs)]
         for f in futs:
             results.append(f.result())
     shutil.rmtree(runroot, ignore_errors=True)
